@@ -370,7 +370,7 @@ def _run_watched(argv, fin, fout, ferr, env, cwd, watch_path, stall, hard):
 def run_impl(ops_path, out_path, binary=None, timeout=300, env=None):
     """`timeout` is the longest the harness may go without writing a result line; the whole run may take 12x that."""
     binary = binary or HARNESS
-    e = dict(os.environ, GOMEMLIMIT="4GiB")
+    e = dict(os.environ, GOMEMLIMIT="4GiB", VERIF_SCRATCH=out_path + ".scratch")
     if env:
         e.update(env)
     argv = binary if isinstance(binary, list) else [binary]
